@@ -885,8 +885,9 @@ class Parser:
                 pre_indent_comments.append(self.current().value)
             self.advance()
 
-        # Expect indentation for children
-        if self.current().type == TokenType.INDENT:
+        # Expect indentation for children (deeper than the section marker itself; a following
+        # line at the same or a shallower indentation is a sibling/ancestor)
+        if self.current().type == TokenType.INDENT and self.current().value > section_token.column - 1:
             child_indent = self.current().value
             self.advance()
 
@@ -1093,7 +1094,31 @@ class Parser:
                     "E001",
                 )
 
-            self.skip_whitespace()
+            self.skip_whitespace(skip_comments=False)
+
+            # Comments at column 0 between the block header and its first indented child are
+            # kept as leading comments of that child (as parse_section_marker does for
+            # sections).  When no child follows they belong to the enclosing level and are
+            # left in the stream; skipping them here silently dropped them.
+            pre_indent_comments: list[str] = []
+            pre_indent_pos = self.pos
+            while self.current().type in (TokenType.COMMENT, TokenType.NEWLINE):
+                if self.current().type == TokenType.COMMENT:
+                    pre_indent_comments.append(self.current().value)
+                self.advance()
+            # Children are indented deeper than the block key.  A following line at the same or
+            # a shallower indentation is a sibling/ancestor: the block is empty.
+            block_indent = identifier_token.column - 1
+            has_indented_children = self.current().type == TokenType.INDENT and self.current().value > block_indent
+            if self.current().type != TokenType.FENCE_OPEN and not has_indented_children:
+                self.pos = pre_indent_pos
+            # A bare literal zone indented deeper than the block key is the first of possibly
+            # several children: enter the child loop at the fence's indentation.
+            fence_child_indent = (
+                self.current().column - 1
+                if self.current().type == TokenType.FENCE_OPEN and self.current().column - 1 > block_indent
+                else None
+            )
 
             # Parse block children
             children: list[ASTNode] = []
@@ -1105,7 +1130,7 @@ class Parser:
             # After skip_whitespace() the NEWLINE is consumed and current() is FENCE_OPEN.
             # The normal INDENT-gated path would leave children empty, silently dropping
             # the literal zone (I1 violation). Parse it here into a bare-key Assignment.
-            if self.current().type == TokenType.FENCE_OPEN:
+            if self.current().type == TokenType.FENCE_OPEN and fence_child_indent is None:
                 lzv = self.parse_literal_zone()
                 children.append(
                     Assignment(
@@ -1113,13 +1138,17 @@ class Parser:
                         value=lzv,
                         line=self.current().line,
                         column=self.current().column,
+                        leading_comments=pre_indent_comments,
                     )
                 )
 
             # Expect indentation for children
-            elif self.current().type == TokenType.INDENT:
-                child_indent = self.current().value
-                self.advance()
+            elif has_indented_children or fence_child_indent is not None:
+                if fence_child_indent is not None:
+                    child_indent = fence_child_indent
+                else:
+                    child_indent = self.current().value
+                    self.advance()
 
                 # GH#81: Track current line's indentation to detect implicit dedent
                 # When NEWLINE is consumed without subsequent INDENT, the next token
@@ -1127,7 +1156,7 @@ class Parser:
                 current_line_indent = child_indent
 
                 # Issue #182: Track pending comments for next child
-                pending_comments: list[str] = []
+                pending_comments: list[str] = pre_indent_comments
 
                 while True:
                     # End conditions
@@ -1158,6 +1187,11 @@ class Parser:
                         # Next INDENT token will update it, or absence means column 0
                         current_line_indent = 0
                         continue
+
+                    # A fence span starts at the beginning of its line, so no INDENT token
+                    # precedes FENCE_OPEN: take the line's indentation from the token column.
+                    if self.current().type == TokenType.FENCE_OPEN:
+                        current_line_indent = self.current().column - 1
 
                     # GH#81: Check for implicit dedent before parsing child
                     # If current line has less indentation than block children expect,
